@@ -142,6 +142,26 @@ def exactOk (d : Dialect) (r : Req) (init : ColState) (o : Out) : Bool :=
 def schemaOk (r : Req) (o : Out) : Bool :=
   o.stmts.all (fun st => Stmt.tref st == tref r)
 
+/-- the column a statement refers to, including the column inside an added CHECK constraint -/
+def Stmt.colRef : Stmt → Option String
+  | .addConstraint _ _ c => some c
+  | st => Stmt.col st
+
+/-- the column's name after a statement -/
+def nextName (name : String) : Stmt → String
+  | .rename _ _ new => new
+  | .mysqlChange _ _ new _ _ _ _ _ => new
+  | _ => name
+
+/-- every statement that refers to a column refers to it by the name it has at that point of the
+script (a statement emitted after the rename must use the new name) -/
+def addressOk (name : String) : List Stmt → Bool
+  | [] => true
+  | st :: rest =>
+    (match Stmt.colRef st with
+     | some c => c == name
+     | none => true) && addressOk (nextName name st) rest
+
 /-- the domain the property text names: server defaults are values or `None` (no identity /
 computed constructs among the requested or stated defaults) -/
 def plainDefaults (r : Req) : Bool :=
